@@ -17,7 +17,7 @@ optional internal value); the harness renders these to TeX source.  All numbers 
 the 32-bit (and 64-bit) width is explicit: where an `i32` operation of the Rust code would
 overflow (a panic in the build profile used by the harness) the model says `panic`.
 
-The model describes the code *with* `fixes/C06-{a,b,c,d,e,g}.patch` applied (see notes/C06.md).
+The model describes the code *with* `fixes/C06-{a,b,c,d,e,g,h}.patch` applied (see notes/C06.md).
 Core Lean only.
 -/
 namespace C06
@@ -135,6 +135,16 @@ def scanNoUnits (p : Printed) : Res Int :=
   else if p.frac.length > 17 then .panic           -- `f[k]` out of bounds
   else
     match scaledNew p.ip (fromDecimalDigits (pad17 p.frac)) .pt with
+    | .ok sc => .ok (if p.neg then -sc else sc)
+    | .overflow => .overflow
+    | .panic => .panic
+
+/-- `Scaled::parse_from_string` on the structured form of `-?<int>[.<digits>]<unit>` (with
+fixes/C06-h.patch: the sign is taken off first and applied to the whole value). -/
+def parseFromString (p : Printed) (u : TUnit) : Res Int :=
+  if (p.ip : Int) > 2147483647 then .overflow        -- "invalid number" (an `Err`, not a panic)
+  else
+    match scaledNew p.ip (fromDecimalDigits p.frac) u with
     | .ok sc => .ok (if p.neg then -sc else sc)
     | .overflow => .overflow
     | .panic => .panic
